@@ -753,3 +753,306 @@ func namedTypesOf(pk *types.Package) []*types.Named {
 	}
 	return out
 }
+
+// reachersOf returns every function from which one of targets is reachable in the CHA call graph.
+func (p *Prog) reachersOf(targets ...*ssa.Function) map[*ssa.Function]bool {
+	cg := p.CG()
+	seen := map[*ssa.Function]bool{}
+	var st []*ssa.Function
+	for _, t := range targets {
+		if t != nil {
+			st = append(st, t)
+		}
+	}
+	for len(st) > 0 {
+		f := st[len(st)-1]
+		st = st[:len(st)-1]
+		if seen[f] {
+			continue
+		}
+		seen[f] = true
+		if n := cg.Nodes[f]; n != nil {
+			for _, e := range n.In {
+				st = append(st, e.Caller.Func)
+			}
+		}
+		// a closure is "reached" from its parent's creation site: treat parent as a reacher
+		if f.Parent() != nil {
+			st = append(st, f.Parent())
+		}
+	}
+	return seen
+}
+
+// calleesOf resolves the possible callees of a call instruction (static or CHA).
+func (p *Prog) calleesOf(i ssa.CallInstruction) []*ssa.Function {
+	if f := staticCallee(i.Common()); f != nil {
+		return []*ssa.Function{f}
+	}
+	var out []*ssa.Function
+	if n := p.CG().Nodes[i.Parent()]; n != nil {
+		for _, e := range n.Out {
+			if e.Site == i {
+				out = append(out, e.Callee.Func)
+			}
+		}
+	}
+	return out
+}
+
+// textWriters lists the raw text-write primitives of package memory present in this configuration.
+func (p *Prog) textWriters() []*ssa.Function {
+	var out []*ssa.Function
+	for _, n := range []string{"WriteTo", "WriteToNoFlush", "WriteToNoFlushNoLock"} {
+		if f := p.Fn("internal/bytecode/memory", n); f != nil {
+			out = append(out, f)
+		}
+	}
+	return out
+}
+
+// canReturnNonNilError reports whether fn has a return whose error result is not the nil constant.
+func canReturnNonNilError(fn *ssa.Function) bool {
+	if fn == nil || fn.Blocks == nil {
+		return true
+	}
+	errT := types.Universe.Lookup("error").Type()
+	res := fn.Signature.Results()
+	for _, ret := range returnsOf(fn) {
+		for k := 0; k < res.Len(); k++ {
+			if types.Identical(res.At(k).Type(), errT) && k < len(ret.Results) {
+				if !isNilConst(retResult(ret, k)) {
+					return true
+				}
+			}
+		}
+	}
+	return false
+}
+
+// errIndex returns the index of the error result of a signature, or -1.
+func errIndex(sig *types.Signature) int {
+	errT := types.Universe.Lookup("error").Type()
+	for k := 0; k < sig.Results().Len(); k++ {
+		if types.Identical(sig.Results().At(k).Type(), errT) {
+			return k
+		}
+	}
+	return -1
+}
+
+// errNilGuarded reports whether block b runs only when the error result of call d is nil.
+func errNilGuarded(b *ssa.BasicBlock, d *ssa.Call) bool {
+	isErrOfD := func(v ssa.Value) bool {
+		for _, a := range origins(v) {
+			switch x := a.V.(type) {
+			case *ssa.Extract:
+				if x.Tuple == d {
+					return true
+				}
+			case *ssa.Call:
+				if x == d {
+					return true
+				}
+			}
+		}
+		return false
+	}
+	for _, g := range guardsAt(b) {
+		bo, ok := g.Cond.(*ssa.BinOp)
+		if !ok || (bo.Op != token.EQL && bo.Op != token.NEQ) {
+			continue
+		}
+		var other ssa.Value
+		if isNilConst(bo.Y) {
+			other = bo.X
+		} else if isNilConst(bo.X) {
+			other = bo.Y
+		} else {
+			continue
+		}
+		if isErrOfD(other) && (bo.Op == token.EQL) == g.Pol {
+			return true
+		}
+	}
+	return false
+}
+
+// modEdges builds the module-internal call graph: static calls, closures, and invokes on
+// interfaces declared in the module (resolved to every module method with that name whose receiver implements it).
+func (p *Prog) modEdges() map[*ssa.Function][]*ssa.Function {
+	if p.medges != nil {
+		return p.medges
+	}
+	edges := map[*ssa.Function][]*ssa.Function{}
+	// method index by name for module types
+	byName := map[string][]*ssa.Function{}
+	for _, f := range p.Funcs {
+		if f.Signature.Recv() != nil && f.Object() != nil {
+			byName[f.Name()] = append(byName[f.Name()], f)
+		}
+	}
+	for _, f := range p.Funcs {
+		if relPkg(f) == "internal/logger" {
+			continue
+		}
+		eachInstr(f, func(i ssa.Instruction) {
+			if mc, ok := i.(*ssa.MakeClosure); ok {
+				if cf, ok := mc.Fn.(*ssa.Function); ok {
+					edges[f] = append(edges[f], cf)
+				}
+			}
+			ci, ok := i.(ssa.CallInstruction)
+			if !ok {
+				return
+			}
+			c := ci.Common()
+			if cal := staticCallee(c); cal != nil {
+				if strings.HasPrefix(pkgPathOf(cal), Mod) && relPkg(cal) != "internal/logger" {
+					edges[f] = append(edges[f], cal)
+				}
+				return
+			}
+			if c.IsInvoke() {
+				it, _ := c.Value.Type().Underlying().(*types.Interface)
+				nt, _ := c.Value.Type().(*types.Named)
+				if it == nil || nt == nil || nt.Obj().Pkg() == nil || !strings.HasPrefix(nt.Obj().Pkg().Path(), Mod) {
+					return
+				}
+				for _, m := range byName[c.Method.Name()] {
+					rt := m.Signature.Recv().Type()
+					if types.Implements(rt, it) {
+						edges[f] = append(edges[f], m)
+					}
+				}
+			}
+		})
+	}
+	p.medges = edges
+	return edges
+}
+
+// modReachers: functions from which one of targets is reachable over modEdges.
+func (p *Prog) modReachers(targets ...*ssa.Function) map[*ssa.Function]bool {
+	edges := p.modEdges()
+	rev := map[*ssa.Function][]*ssa.Function{}
+	for a, bs := range edges {
+		for _, b := range bs {
+			rev[b] = append(rev[b], a)
+		}
+	}
+	seen := map[*ssa.Function]bool{}
+	st := append([]*ssa.Function(nil), targets...)
+	for len(st) > 0 {
+		f := st[len(st)-1]
+		st = st[:len(st)-1]
+		if f == nil || seen[f] {
+			continue
+		}
+		seen[f] = true
+		st = append(st, rev[f]...)
+	}
+	return seen
+}
+
+// modReach: functions reachable from roots over modEdges.
+func (p *Prog) modReach(roots ...*ssa.Function) map[*ssa.Function]bool {
+	edges := p.modEdges()
+	seen := map[*ssa.Function]bool{}
+	st := append([]*ssa.Function(nil), roots...)
+	for len(st) > 0 {
+		f := st[len(st)-1]
+		st = st[:len(st)-1]
+		if f == nil || seen[f] {
+			continue
+		}
+		seen[f] = true
+		st = append(st, edges[f]...)
+	}
+	return seen
+}
+
+// modCallees resolves a call instruction over the module graph (static or module-interface invoke).
+func (p *Prog) modCallees(ci ssa.CallInstruction) []*ssa.Function {
+	c := ci.Common()
+	if cal := staticCallee(c); cal != nil {
+		return []*ssa.Function{cal}
+	}
+	if !c.IsInvoke() {
+		return nil
+	}
+	it, _ := c.Value.Type().Underlying().(*types.Interface)
+	nt, _ := c.Value.Type().(*types.Named)
+	if it == nil || nt == nil || nt.Obj().Pkg() == nil || !strings.HasPrefix(nt.Obj().Pkg().Path(), Mod) {
+		return nil
+	}
+	var out []*ssa.Function
+	for _, m := range p.Funcs {
+		if m.Signature.Recv() != nil && m.Object() != nil && m.Name() == c.Method.Name() && types.Implements(m.Signature.Recv().Type(), it) {
+			out = append(out, m)
+		}
+	}
+	return out
+}
+
+// textWriteSite is a direct call of a text-write primitive, classified by what it writes.
+type textWriteSite struct {
+	Fn   *ssa.Function
+	Call ssa.CallInstruction
+	Kind string // "install" (jump bytes), "restore" (origin bytes), "other"
+	Addr []Atom
+	Data []Atom
+}
+
+// textWriteSites lists every direct call to memory.WriteTo* in the module.
+func (p *Prog) textWriteSites() []textWriteSite {
+	var out []textWriteSite
+	var names []string
+	for _, w := range p.textWriters() {
+		names = append(names, w.Object().(*types.Func).FullName())
+	}
+	for _, f := range p.Funcs {
+		if relPkg(f) == "internal/bytecode/memory" {
+			continue
+		}
+		for _, cs := range callsTo(f, names...) {
+			ci := cs.(ssa.CallInstruction)
+			args := ci.Common().Args
+			s := textWriteSite{Fn: f, Call: ci, Kind: "other", Addr: origins(args[0]), Data: origins(args[1])}
+			for _, a := range s.Data {
+				if a.Kind == "field" && strings.HasSuffix(a.Name, ".jumpBytes") {
+					s.Kind = "install"
+				}
+				if a.Kind == "field" && strings.HasSuffix(a.Name, ".originBytes") {
+					s.Kind = "restore"
+				}
+			}
+			out = append(out, s)
+		}
+	}
+	return out
+}
+
+// retResult returns the value actually returned at index idx, looking through the result spill
+// go/ssa introduces in functions with defers (store to a result alloc, rundefers, load, return).
+func retResult(ret *ssa.Return, idx int) ssa.Value {
+	if idx >= len(ret.Results) {
+		return nil
+	}
+	v := ret.Results[idx]
+	ld, ok := v.(*ssa.UnOp)
+	if !ok || ld.Op != token.MUL {
+		return v
+	}
+	a, ok := ld.X.(*ssa.Alloc)
+	if !ok {
+		return v
+	}
+	b := ret.Block()
+	for k := len(b.Instrs) - 1; k >= 0; k-- {
+		if st, ok := b.Instrs[k].(*ssa.Store); ok && st.Addr == a {
+			return st.Val
+		}
+	}
+	return v
+}
